@@ -4,7 +4,7 @@
    compared with what the implementation produced.  Extracted separately from Check/Run.v so that the specification
    checker keeps working when the translated model does not compile. *)
 From Coq Require Import ZArith List Bool Arith.
-From SpadeV Require Import Num.Decode Num.Decode2 Geom.Pred Obs.State Obs.Spec Vmap.Model Dcel.Raw Gen.DcelOps Tri.Legalize Tri.Insert Tri.Locate Tri.InsertLine Obs.LineSpec Tri.LineIter Tri.Remove Query.NatNeighbor Check.Codes Check.Run.
+From SpadeV Require Import Num.Decode Num.Decode2 Geom.Pred Obs.State Obs.Spec Vmap.Model Dcel.Raw Gen.DcelOps Tri.Legalize Tri.Insert Tri.Locate Tri.InsertLine Obs.LineSpec Tri.LineIter Tri.Remove Tri.AddConstraint Query.NatNeighbor Check.Codes Check.Run.
 Import ListNotations.
 
 Definition dcel_eqb (a b : dcel) : bool :=
@@ -371,6 +371,98 @@ Definition check_weights_model (c : cfg) (p : obs) (natural : bool) (args res : 
   | _, _ => []
   end.
 
+(* ---- constraint insertion without splitting (Tri/AddConstraint.v): add_constraint (addc), try_add_constraint (tryc), can_add_constraint (canc).
+   The model is a function of the previous state.  Compared: all four tables, the returned edge list (tryc) / bool (addc, canc), the change of
+   num_constraints; a refused add_constraint is the documented panic (the harness dumps the state after it: it must be the previous state).
+   Restricted to the inputs on which the iterator's floating-point comparisons take the exact branch (as for lineh / confv). ---- *)
+Definition check_addc_model (f32 : bool) (kind : Z) (p n : obs) (args res : list Z) : list (tag * bool) :=
+  match args, decode_points_e (coord_bits p) with
+  | [va; vb], Some (pts, em) =>
+      let a := vpos pts (Z.to_nat va) in let b := vpos pts (Z.to_nat vb) in
+      if line_exact f32 pts em || line_monotone_safe f32 pts a b em then
+        let dd := dcel_of_obs p in
+        let dn := dcel_of_obs n in
+        let fuel := nH p * nH p + 2 * nH p + nV p + 200 in
+        match try_add_constraint_inner pts fuel dd (Z.to_nat va) (Z.to_nat vb) with
+        | None => [(T_corr, false)]
+        | Some Refused =>
+            if (kind =? OP_tryc)%Z then [(T_corr, dcel_eqb dd dn && list_eqb Z.eqb res [0%Z] && (o_nc n =? o_nc p))]
+            else [(T_corr, dcel_eqb dd dn && list_eqb Z.eqb res [K_panic] && (o_nc n =? o_nc p))]
+        | Some (Added d' nc edges) =>
+            if (kind =? OP_tryc)%Z then
+              [(T_corr, dcel_eqb d' dn && (o_nc n =? o_nc p + nc) &&
+                        match counted res with Some got => list_eqb Nat.eqb edges got | None => false end)]
+            else [(T_corr, dcel_eqb d' dn && (o_nc n =? o_nc p + nc) && list_eqb Z.eqb res [if nc =? 0 then 0%Z else 1%Z])]
+        end
+      else []
+  | _, _ => []
+  end.
+
+Definition check_canc_model (f32 : bool) (p : obs) (args res : list Z) : list (tag * bool) :=
+  match args, res, decode_points_e (coord_bits p) with
+  | [va; vb], [r], Some (pts, em) =>
+      let a := vpos pts (Z.to_nat va) in let b := vpos pts (Z.to_nat vb) in
+      if line_exact f32 pts em || line_monotone_safe f32 pts a b em then
+        let fuel := 2 * nH p + nV p + 1 in
+        [(T_corr, match can_add_constraint pts fuel (dcel_of_obs p) (Z.to_nat va) (Z.to_nat vb) with
+                  | Some v => Bool.eqb v (r =? 1)%Z | None => false end)]
+      else []
+  | _, _, _ => []
+  end.
+
+
+(* ---- add_constraint_edge (adde): insert(from)?; insert(to)?; add_constraint(from_handle, to_handle).  The two insertions are the insertion
+   models (Tri/Insert.v, Tri/InsertLine.v) run for every location the exact specification admits, the second on the result of the first; the
+   constraint insertion is run on every such intermediate state and one of the results must be the implementation's DCEL and bool.  When the
+   code panics ("intersect") both end points have been inserted and the state must be that intermediate state. ---- *)
+Definition obs_view (d : dcel) : obs :=
+  mkobs (length (d_verts d)) (length (d_flags d)) (length (d_faces d)) 0 0 0 false (d_verts d) (d_hedges d) (d_faces d) (d_flags d) [].
+
+(* every (state, handle, positions) the insertion of position q can lead to *)
+Definition insert_results (pts : list pnt) (fuel : nat) (d : dcel) (q : pnt) (v : vdata) : list (dcel * nat * list pnt) :=
+  let p := obs_view d in
+  let nv := nV p in
+  if nF p <=? 1 then
+    flat_map (fun loc =>
+      let pts' := match loc with LOnVertex _ => pts | _ => pts ++ [q] end in
+      let h := match loc with LOnVertex u => u | _ => nv end in
+      match insert_line pts' fuel d loc v with Some d' => [(d', h, pts')] | None => [] end) (line_candidates p pts q)
+  else
+    flat_map (fun loc =>
+      let pts' := match loc with IOnVertex _ => pts | _ => pts ++ [q] end in
+      let h := match loc with IOnVertex u => u | _ => nv end in
+      match insert_2d pts' fuel d loc v with Some d' => [(d', h, pts')] | None => [] end) (insert_candidates p pts q).
+
+Definition check_adde_model (f32 : bool) (p n : obs) (args res : list Z) : list (tag * bool) :=
+  match args, res with
+  | [x1; y1; d1; x2; y2; d2], r0 :: rest =>
+    if negb ((r0 =? K_ok)%Z || (r0 =? K_panic)%Z) then [] else
+    match decode_points_e (coord_bits p ++ [x1; y1; x2; y2]) with
+    | Some (allp, em) =>
+      let pts := firstn (nV p) allp in
+      match skipn (nV p) allp with
+      | [q1; q2] =>
+        if line_exact f32 allp em || line_monotone_safe f32 allp q1 q2 em then
+          let dd := dcel_of_obs p in
+          let dn := dcel_of_obs n in
+          let fuel := (nH p + 12) * (nH p + 12) + 2 * nH p + nV p + 200 in
+          let firsts := insert_results pts fuel dd q1 (mkvd x1 y1 d1) in
+          [(T_corr, existsb (fun r1 => let '(da, h1, pts1) := r1 in
+                      existsb (fun r2 => let '(db, h2, pts2) := r2 in
+                        match try_add_constraint_inner pts2 fuel db h1 h2 with
+                        | Some Refused => (r0 =? K_panic)%Z && dcel_eqb db dn
+                        | Some (Added d' nc _) => (r0 =? K_ok)%Z && dcel_eqb d' dn && list_eqb Z.eqb rest [if nc =? 0 then 0%Z else 1%Z]
+                        | None => false
+                        end) (insert_results pts1 fuel da q2 (mkvd x2 y2 d2))) firsts)]
+        else []
+      | _ => []
+      end
+    | None => []
+    end
+  | _, _ => []
+  end.
+
+
 Fixpoint run_model_steps (c : cfg) (p : obs) (k : nat) (l : list step) : list verdict :=
   match l with
   | [] => []
@@ -388,6 +480,7 @@ Fixpoint run_model_steps (c : cfg) (p : obs) (k : nat) (l : list step) : list ve
             else if (s_op st =? OP_lineh)%Z then map (fun v => (k, fst v, snd v)) (check_line_model (c_f32 c) true p (s_args st) (s_res st))
             else if (s_op st =? OP_confv)%Z || (s_op st =? OP_confp)%Z || (s_op st =? OP_isc)%Z then
               map (fun v => (k, fst v, snd v)) (check_conf_model (c_f32 c) (s_op st) p (s_args st) (s_res st))
+            else if (s_op st =? OP_canc)%Z then map (fun v => (k, fst v, snd v)) (check_canc_model (c_f32 c) p (s_args st) (s_res st))
             else if (s_op st =? OP_nnw)%Z then map (fun v => (k, fst v, snd v)) (check_weights_model c p true (s_args st) (s_res st))
             else if (s_op st =? OP_bary)%Z then map (fun v => (k, fst v, snd v)) (check_weights_model c p false (s_args st) (s_res st))
             else [])
@@ -397,7 +490,11 @@ Fixpoint run_model_steps (c : cfg) (p : obs) (k : nat) (l : list step) : list ve
       match parse_obs raw with
       | None => [(k, T_parse, false)]
       | Some n =>
-        (if (s_op st =? OP_prim)%Z && negb (existsb (Z.eqb K_skip) (s_res st) || existsb (Z.eqb K_panic) (s_res st) || existsb (Z.eqb K_hang) (s_res st))
+        (if ((s_op st =? OP_addc)%Z || (s_op st =? OP_tryc)%Z) && negb (existsb (Z.eqb K_skip) (s_res st) || existsb (Z.eqb K_hang) (s_res st))
+         then map (fun v => (k, fst v, snd v)) (check_addc_model (c_f32 c) (s_op st) p n (s_args st) (s_res st))
+         else if (s_op st =? OP_adde)%Z && negb (existsb (Z.eqb K_skip) (s_res st) || existsb (Z.eqb K_hang) (s_res st))
+         then map (fun v => (k, fst v, snd v)) (check_adde_model (c_f32 c) p n (s_args st) (s_res st))
+         else if (s_op st =? OP_prim)%Z && negb (existsb (Z.eqb K_skip) (s_res st) || existsb (Z.eqb K_panic) (s_res st) || existsb (Z.eqb K_hang) (s_res st))
          then map (fun v => (k, fst v, snd v)) (check_prim p n (s_args st) (s_res st))
          else if ((s_op st =? OP_ins)%Z || (s_op st =? OP_insh)%Z) && negb (existsb (Z.eqb K_skip) (s_res st) || existsb (Z.eqb K_panic) (s_res st) || existsb (Z.eqb K_hang) (s_res st))
          then match s_args st with
